@@ -95,6 +95,7 @@ mut("unregister-leaves-observer", RG, "        if (op->observer == obs) {\n     
 mut("unregister-returns-false", RG, "            cmi_mempool_free(&observer_tagpool, op);\n            return true;", "            cmi_mempool_free(&observer_tagpool, op);\n            return false;", ["C13"])
 mut("timers-clear-stops-at-non-timer", PR, "            /* Skip to next */\n            awaits = awaits->next;", "            /* Skip to next */\n            break;", ["C04"])
 mut("timers-clear-drops-first-awaitable", PR, "        if (pa->type == CMI_PROCESS_AWAITABLE_TIME) {\n            /* Recycle the tag */\n            cmi_slist_pop(awaits);", "        if (pa->type == CMI_PROCESS_AWAITABLE_TIME) {\n            /* Recycle the tag */\n            cmi_slist_pop(&(pp->awaits));", ["C04"])
+mut("acf-cross-products-negated", "src/cmb_dataset.c", "            dk += (dsp->xa[ui] - m1) * (dsp->xa[ui + ulag] - m1);", "            dk -= (dsp->xa[ui] - m1) * (dsp->xa[ui + ulag] - m1);", ["C18"])
 # --- C03 ------------------------------------------------------------------------
 ASM = "src/port/x86-64/linux/cmi_coroutine_context.asm"
 CTX = "src/port/x86-64/linux/cmi_coroutine_context.c"
